@@ -178,7 +178,8 @@ def dupAcrossBlocks (lay : List RowSet) (k : Nat) (r : KeyRange) : Bool :=
 this request (the check maps them to known-finding signatures). -/
 def tagsOf (t : TableMeta) (lay : List RowSet) (bound opt : Plan) : List String :=
   let (cols, f) := scanOf opt
-  let t1 := if hasSort bound && !hasSort opt && lay.length ≥ 2 then ["order:pk-order-multi-rowset"] else []
+  -- (`order:pk-order-multi-rowset` is repaired: fix d36c2ac, keyed tables are read through the merging iterator)
+  let t1 : List String := []
   -- (`topn:absent-limit` is repaired: fix ec313d4)
   let t2 : List String := []
   let t3 := match analyzeRange f, keyRangeOfFilter f with
@@ -251,17 +252,13 @@ def scanRowSetCF (fx : Fixes) (k : Nat) (rs : RowSet) (cols : List Nat) (r : Key
     let tagged := rs.tagged.drop s
     scanBatches fc (some r1) (splitBatches (cutPoints rs cols) (tagged.length + 1) s tagged)
 
-def collectOut {α} : List (Out α) → Out (List α)
-  | [] => .ok []
-  | x :: xs => x.bind fun a => (collectOut xs).map fun b => a :: b
-
 def execPlanCF (fx : Fixes) (t : TableMeta) (lay : List RowSet) : Plan → Out (List Row)
   | .scan cols f =>
     let per : Out (List (List Row)) := match analyzeRange f, keyRangeOfFilter f with
       | some (k, _), some r => collectOut (lay.map fun rs => scanRowSetCF fx k rs cols r)
       | _, _ => .ok (lay.map RowSet.visible)
     let rows : Out (List Row) := per.map fun ls =>
-      if fx.merge && !t.primary.isEmpty then mergeK (keyCmp (ascKeys t.primary)) (totalLen ls) ls else ls.flatten
+      if !t.primary.isEmpty then mergeK (keyCmp (ascKeys t.primary)) (totalLen ls) ls else ls.flatten
     rows.map fun rs =>
       match f with
       | .const (.bool true) => rs
@@ -317,8 +314,8 @@ def answerQuery (t : TableMeta) (lay : List RowSet) (q : Sexp) : String :=
       else
         let ks := sortKeysOf bp
         let spec := specPlan lay bp
-        let exec := execPlan lay op
-        let execB := execPlan lay bp
+        let exec := execPlan t lay op
+        let execB := execPlan t lay bp
         "(ans ok (keys " ++ toString ks.length ++ ") (limited " ++ toString (hasLimit bp) ++ ") (exec " ++ showOut ks (outCols op) exec ++
           ") (execb " ++ showOut ks (outCols bp) execB ++ ") (spec " ++ showOut ks (outCols bp) (.ok spec) ++
           ") (sorted " ++ toString (hasSort op) ++ ") (pushed " ++ toString (keyRangeOfFilter (scanOf op).2).isSome ++
@@ -334,26 +331,6 @@ def bndOf : Sexp → Option Bnd
   | .list [.atom "incl", .atom v] => (Val.ofCanon v).map .incl
   | .list [.atom "excl", .atom v] => (Val.ofCanon v).map .excl
   | _ => none
-
-/-- `scanBatches` keeping the chunk structure (one chunk per non-empty batch): what the
-MergeIterator's child iterators deliver -/
-def scanBatchesC (fc : Nat) (r : Option KeyRange) : List (List (Row × Bool)) → List (List Row)
-  | [] => []
-  | b :: bs =>
-    if b.all (fun x => !x.2) then scanBatchesC fc r bs
-    else
-      match r with
-      | none => liveRows b :: scanBatchesC fc r bs
-      | some rg =>
-        let lo := firstIdx (fun x => lowerOk rg.lo (Row.at x.1 fc)) b
-        let hi := firstIdx (fun x => upperBad rg.hi (Row.at x.1 fc)) b
-        let out := liveRows (sliceRange lo hi b)
-        if hi = 0 then [out] else out :: scanBatchesC fc r bs
-
-def scanRowSetC (rs : RowSet) (cols : List Nat) (r : Option KeyRange) : Out (List (List Row)) :=
-  (startRowid rs r).map fun s =>
-    let tagged := rs.tagged.drop s
-    (scanBatchesC (cols.headD 0) r (splitBatches (cutPoints rs cols) (tagged.length + 1) s tagged)).filter (!·.isEmpty)
 
 /-- storage-level request: `Transaction::scan(cols, filter, sorted)` -/
 def answerScan (t : TableMeta) (lay : List RowSet) (s : Sexp) : String :=
@@ -374,7 +351,7 @@ def answerScan (t : TableMeta) (lay : List RowSet) (s : Sexp) : String :=
           -- MergeIterator over the per-row-set iterators (each already range filtered)
           -- the real heap (Model/Heap.lean), child iterators as chunk lists: tie order included
           (collectOut (lay.map fun rs => scanRowSetC rs cols r)).map fun streams =>
-            mergeHeap (keyCmp (ascKeys t.primary)) streams
+            mergeHeap (keyCmp (ascKeys t.primary)) (streams.map fun st => st.filter (!·.isEmpty))
         else scanTable lay cols r
       let full := concatScan lay
       let fc := cols.headD 0
@@ -522,7 +499,7 @@ def searchC12 : List Hit × Nat × Nat := Id.run do
           let spec := specPlan lay bound
           -- the snapshot iterates its row-sets in hash-set order: a robust witness must fail for
           -- EVERY order of the row-sets (a panicking executor task = a statement with no rows)
-          let okFor := fun (l : List RowSet) => match execPlan l opt with
+          let okFor := fun (l : List RowSet) => match execPlan t l opt with
             | .ok rows => sameResult ks [k] rows spec
             | .panic _ => sameResult ks [k] [] spec
           let ok := (permsOf lay).any okFor
